@@ -71,6 +71,10 @@ LEVEL_NOTE = ('The balances are evaluated by the harness from the returned rates
               'enumeration of tides_common (self-tested on the classical 21/2 rate).')
 CASES = {'quick': 4000, 'thorough': 60000}
 SHARDS = {'quick': 16, 'thorough': 16}
+# coverage-guided shards (vlib/fuzz_shard.py): libFuzzer drives the same strategy, guided by branch coverage of the pure-Python
+# driver that routes scalar / array / None / period-or-frequency arguments (the numeric kernels are numba-jitted and not instrumented)
+FUZZ = {'instrument': ['TidalPy.toolbox.quick_tides'], 'shards': {'quick': 0, 'thorough': 4},
+        'cases': {'quick': 0, 'thorough': 4000}}
 TOL = 1.0e-9
 FLOOR = 1.0e-12
 ARRAY_TOL = 1.0e-13
